@@ -13,7 +13,7 @@ PROP = dict(
                 "are exactly path.Join(prefix, tag name) of the tagged visible fields (prefix/name on clean inputs, the bare name without prefix), nothing else is "
                 "requested and every unknown one is; each field receives the current value of exactly its own name (fresh buffer for []byte, text, handle of this store "
                 "bound to that name, UnmarshalBinary called with exactly the bytes, json.Unmarshal of the bytes); untagged and invisible fields are untouched; a []byte "
-                "field never holds a store buffer, so overwriting it cannot change what any store state serves; non-pointer/non-struct arguments, empty names, unsupported "
+                "field never holds a store buffer, so overwriting it cannot change what any store state serves; non-pointer/non-struct arguments (incl. the untyped nil and nil struct pointers of any shape), empty names, unsupported "
                 "types without the json verb and structs without tagged fields - and only those - are rejected before any request; every field is processed whatever the "
                 "others do, the reported errors are exactly the failing fields, and whether a field fails depends on that field alone. Tied to the code by run-time generated "
                 "struct types driven through NewStore(Structs) and ParseFields+Apply (with and without AllowLookup) against a scripted StoreClient; requested names, "
